@@ -701,10 +701,17 @@ class CallMixin:
             apply_mutation(st, locs, added, how)
 
     def call_builtin_method(self, recv: AV, name, args, kwargs, n, st, frame, generic=False) -> AV:
+        e = None
+        if not generic:
+            e = self.ev(frame, st, "bcall", n, callee=name, recv=recv, args=tuple(args))
+        r = self._call_builtin_method(recv, name, args, kwargs, n, st, frame, generic)
+        if e is not None:
+            e.result = r
+        return r
+
+    def _call_builtin_method(self, recv: AV, name, args, kwargs, n, st, frame, generic=False) -> AV:
         deps = recv.deps.union(*[a.deps for a in args]) if args else recv.deps
         fresh = frozenset({self.fresh_loc(frame, n)})
-        if not generic:
-            self.ev(frame, st, "bcall", n, callee=name, recv=recv, args=tuple(args))
         is_str = recv.only("str")
         if is_str:
             if name in STR_METHODS_TO_STR:
